@@ -97,6 +97,15 @@ Theorem ops_after_cancel_le_longest_stretch : forall tr k, (ops_after k tr <= ma
 Proof. exact ops_after_le_max_gap. Qed.
 Print Assumptions ops_after_cancel_le_longest_stretch.
 
+(* The context ending inside the k-th backend operation of ANY run: either a check point follows and the call fails
+   (cancelled / timeout), or no check point follows and every remaining operation is executed — the call never
+   succeeds with part of the work left undone (no truncated listing, no partial copy reported as success).  The
+   harness compares [errors_out] with the implementation for every modelled entry point and every k. *)
+Theorem cancelled_inside_never_truncated_success : forall tr k, (1 <= k <= ops tr)%nat ->
+  errors_out k tr = true \/ (k + ops_after k tr = ops tr)%nat.
+Proof. exact success_is_complete. Qed.
+Print Assumptions cancelled_inside_never_truncated_success.
+
 (* FULL STATEMENT (DESIGN): for every context-accepting entry point f, every tree and every k, the operations after
    cancellation are bounded by a constant B_f.  PROVED here, over all trees and all k, for the walk family
    (WalkWithContext, LsRecursive*, ChmodRecursively, ChownRecursively, ChangeOwnershipRecursively: any callback cost),
